@@ -492,6 +492,12 @@ OSD_descr_get(PyObject* self, PyObject* inst, PyObject* cls)
 
     PyErr_Clear();
 
+    if (cls == NULL) {
+        /* ``descr.__get__(inst)`` or ``descr.__get__(inst, None)``: the slot
+         * wrapper passes a missing or None owner as NULL. */
+        cls = Py_None;
+    }
+
     return implementedBy(module, cls);
 }
 
